@@ -35,6 +35,29 @@ def parse_retry(tags):
     return None
 
 
+def resolve_retry(cfg, s, r, f):
+    """(budget, delay_us) of a scenario: the nearest `@retry` tag, completed by / replaced with the
+    CLI-or-builder values (RetryOpts!Resolve without tag filters; budget -1 = no retry options)."""
+    tag = None
+    for tags in (s["tags"], r["tags"] if r else [], f["tags"]):
+        for t in tags:
+            if t.startswith("retry"):
+                n = int(t[len("retry("):t.index(")")]) if t.startswith("retry(") else None
+                d = int(t[t.index(".after(") + 7:-3]) * 1000 if ".after(" in t else None
+                tag = (n, d)
+                break
+        if tag:
+            break
+    retry = cfg.get("retry_cli") if cfg.get("retry_cli") is not None else cfg.get("retry_builder")
+    after = cfg.get("retry_after_cli_ms") if cfg.get("retry_after_cli_ms") is not None \
+        else cfg.get("retry_after_builder_ms")
+    if tag is None and retry is None and after is None:
+        return -1, 0
+    n = tag[0] if tag and tag[0] is not None else (retry if retry is not None else 1)
+    d = tag[1] if tag and tag[1] is not None else (after * 1000 if after is not None else 0)
+    return n, d
+
+
 def gen_case(rng, cid, profile="mixed"):
     nf = rng.choice([1, 1, 2, 2, 3])
     sid = rid = 0
@@ -120,6 +143,15 @@ def gen_case(rng, cid, profile="mixed"):
         serial_custom = [n for n in names if rng.random() < 0.3]
         cfg["serial_custom"] = serial_custom
 
+    # run-wide retry options from the CLI and / or the builder (the CLI wins), now and then
+    if profile != "clean" and rng.random() < (0.3 if profile == "retry" else 0.12):
+        kind = rng.choice(["cli", "builder", "both", "after_only"])
+        if kind in ("cli", "both"):
+            cfg["retry_cli"] = rng.choice([1, 2])
+        if kind in ("builder", "both"):
+            cfg["retry_builder"] = rng.choice([1, 2, 3])
+        if kind == "after_only" or (delays and rng.random() < 0.3):
+            cfg[rng.choice(["retry_after_cli_ms", "retry_after_builder_ms"])] = rng.choice([12, 20])
     expect = {"limit": limit, "fail_fast": fail_fast, "before": cfg["before"], "after": cfg["after"],
               "twin": False, "feats": {}, "rules": {}, "scen": {}, "parser": []}
     outcomes = {}
@@ -133,8 +165,7 @@ def gen_case(rng, cid, profile="mixed"):
             expect["rules"][r["name"]] = {"f": f["name"], "nscen": len(r["scenarios"])}
         for r, s in allsc:
             inherited = s["tags"] + (r["tags"] if r else []) + f["tags"]
-            ret = parse_retry(s["tags"]) or (parse_retry(r["tags"]) if r else None) or parse_retry(f["tags"])
-            budget, delay = (ret if ret else (-1, 0))
+            budget, delay = resolve_retry(cfg, s, r, f)
             any_delay = max(any_delay, delay)
             steps = []
             for i, k in enumerate(f["bg"]):
@@ -211,8 +242,7 @@ def rebuild_expect(c, rng):
             expect["rules"][r["name"]] = {"f": f["name"], "nscen": len(r["scenarios"])}
         for r, s in allsc:
             inherited = s["tags"] + (r["tags"] if r else []) + f["tags"]
-            ret = parse_retry(s["tags"]) or (parse_retry(r["tags"]) if r else None) or parse_retry(f["tags"])
-            budget, delay = (ret if ret else (-1, 0))
+            budget, delay = resolve_retry(cfg, s, r, f)
             steps = []
             for i, k in enumerate(f["bg"]):
                 steps.append({"text": f"{f['name']} bg {i+1} {k}", "label": f"{f['name']} bg {i+1}", "bg": True, "kind": k})
